@@ -148,6 +148,8 @@ func sameServed(a, b map[uint64]view) bool {
 type seqStats struct {
 	counters map[string]int64
 	outcome  []byte
+	// ids displaced by an accepted newer heartbeat of another id and not served again since
+	displaced map[uint64]bool
 }
 
 func (s *seqStats) add(name string, n int64) { s.counters[name] += n }
@@ -178,9 +180,15 @@ func judgeSeq(t target, plan []*world.Snapshot, wire bool) ([]finding, *seqStats
 // delivery + observation and before anything about that delivery is judged; a non-nil error stops the
 // run (nothing observed from that delivery on is judged) and is returned.
 func judgeSeqH(t target, plan []*world.Snapshot, wire bool, health func() error) ([]finding, *seqStats, error) {
-	st := &seqStats{counters: map[string]int64{}}
+	st := &seqStats{counters: map[string]int64{}, displaced: map[uint64]bool{}}
 	var out []finding
 	last := map[uint64]view{} // last observation of every id ever served
+	// a storage that writes behind (region storage: batch + background flush) changes on its own
+	// schedule: the per-delivery storage clauses are skipped, the caller checks after an explicit flush
+	asyncStored := false
+	if a, ok := t.(interface{ StoredAsync() bool }); ok {
+		asyncStored = a.StoredAsync()
+	}
 	before := t.Observe()
 	if health != nil {
 		if err := health(); err != nil {
@@ -248,6 +256,9 @@ func judgeSeqH(t target, plan []*world.Snapshot, wire bool, health func() error)
 		faulted := hasFaults && fi.FaultsInjected() > inj0
 		if faulted {
 			st.add("deliveries_with_storage_fault", 1)
+		}
+		if asyncStored {
+			faulted = true
 		}
 		after := t.Observe()
 		if health != nil {
@@ -347,7 +358,14 @@ func judgeSeqH(t target, plan []*world.Snapshot, wire bool, health func() error)
 				if v.ID == h.R.ID || !overlap(h.R.Start, h.R.End, v.Start, v.End) {
 					continue
 				}
+				if h.R.Version <= v.Ver {
+					// "displaced by an accepted NEWER overlapping region": an overlapping heartbeat of the
+					// same version cannot come from a real history (range changes bump the version)
+					st.add("skipped_ambiguous_overlap_same_version", 1)
+					continue
+				}
 				evicted++
+				st.displaced[v.ID] = true
 				if _, still := after.ByID[v.ID]; still {
 					add("displaced-region-still-served", fmt.Sprintf("accepted; cached region %d %s v%d of another id overlaps it and is still served", v.ID, v.Range, v.Ver))
 				} else if g := t.Get(v.ID); g != nil {
@@ -360,6 +378,7 @@ func judgeSeqH(t target, plan []*world.Snapshot, wire bool, health func() error)
 				}
 			}
 			st.add("evictions", int64(evicted))
+			delete(st.displaced, h.R.ID)
 			// (e)
 			switch {
 			case exp.absent || exp.newer:
